@@ -100,4 +100,441 @@ theorem scad_loader_eq (files : Files) (env : ModelEnv) (path : String) (lg : La
     congr 1
     funext st; obtain ⟨r, s'⟩ := st; cases r <;> rfl
 
+/-! ### a `for` loop with `return` in its body against a `foldlM` of the hand model -/
+
+theorem forInS_cons_yield {β σ : Type} (body : β → σ → Except LErr (ForInStep σ)) (x : β) (xs : List β) (s s1 : σ)
+    (h : body x s = .ok (.yield s1)) : forIn (x :: xs) s body = forIn xs s1 body := by
+  rw [List.forIn_cons]
+  show (body x s).bind _ = _
+  rw [h]; rfl
+
+theorem forInS_cons_done {β σ : Type} (body : β → σ → Except LErr (ForInStep σ)) (x : β) (xs : List β) (s s1 : σ)
+    (h : body x s = .ok (.done s1)) : forIn (x :: xs) s body = .ok s1 := by
+  rw [List.forIn_cons]
+  show (body x s).bind _ = _
+  rw [h]; rfl
+
+theorem forInS_cons_err {β σ : Type} (body : β → σ → Except LErr (ForInStep σ)) (x : β) (xs : List β) (s : σ) (e : LErr)
+    (h : body x s = .error e) : forIn (x :: xs) s body = .error e := by
+  rw [List.forIn_cons]
+  show (body x s).bind _ = _
+  rw [h]; rfl
+
+/-- what a loop body (with `continue` = `yield`, and `return None` = `done` with the flag set) does on `a`, against one
+step of the hand model: Python's `return None` is an error of the hand model -/
+structure StepSimR {α : Type} (P : Nat → H → Prop) (Q : α → Prop) (body : α → LS → Except LErr (ForInStep LS))
+    (step : MS.St → α → Except MS.Err MS.St) : Prop where
+  ok : ∀ n s a r, P (n + 1) s → Q a → body a (none, s) = .ok r →
+    (∃ s1, r = .yield (none, s1) ∧ step (abs s) a = .ok (abs s1) ∧ P n s1) ∨
+    (∃ s1, r = .done (some none, s1) ∧ ∃ er, step (abs s) a = .error er)
+  err : ∀ n s a e, P (n + 1) s → Q a → body a (none, s) = .error e → ∃ er, step (abs s) a = .error er
+
+theorem loop_simR {α : Type} {P : Nat → H → Prop} {Q : α → Prop} {body : α → LS → Except LErr (ForInStep LS)}
+    {step : MS.St → α → Except MS.Err MS.St} (hsim : StepSimR P Q body step) :
+    ∀ (l : List α), (∀ a ∈ l, Q a) → ∀ (s : H), P l.length s →
+      (∀ st, forIn l ((none, s) : LS) body = .ok st →
+        (∃ s', st = (none, s') ∧ l.foldlM step (abs s) = .ok (abs s') ∧ P 0 s') ∨
+        (∃ s', st = (some none, s') ∧ ∃ er, l.foldlM step (abs s) = .error er)) ∧
+      (∀ e, forIn l ((none, s) : LS) body = .error e → ∃ er, l.foldlM step (abs s) = .error er) := by
+  intro l
+  induction l with
+  | nil =>
+    intro _ s hs
+    refine ⟨?_, ?_⟩
+    · intro st h
+      have h' : (Except.ok ((none, s) : LS) : Except LErr LS) = .ok st := h
+      injection h' with h'
+      exact Or.inl ⟨s, h'.symm, rfl, hs⟩
+    · intro e h; cases h
+  | cons a as ih =>
+    intro hq s hs
+    have hqa := hq a List.mem_cons_self
+    have hqs : ∀ b ∈ as, Q b := fun b hb => hq b (List.mem_cons_of_mem _ hb)
+    rw [List.foldlM_cons]
+    cases hb : body a (none, s) with
+    | error e =>
+      obtain ⟨er, her⟩ := hsim.err as.length s a e hs hqa hb
+      rw [forInS_cons_err _ _ _ _ _ hb, her]
+      refine ⟨?_, ?_⟩
+      · intro s' h; cases h
+      · intro e' _; exact ⟨er, rfl⟩
+    | ok r =>
+      rcases hsim.ok as.length s a r hs hqa hb with ⟨s1, hr, hst, hp⟩ | ⟨s1, hr, er, her⟩
+      · subst hr
+        rw [forInS_cons_yield _ _ _ _ _ hb, hst]
+        exact ih hqs s1 hp
+      · subst hr
+        rw [forInS_cons_done _ _ _ _ _ hb, her]
+        refine ⟨?_, ?_⟩
+        · intro st h
+          have h' : (Except.ok ((some none, s1) : LS) : Except LErr LS) = .ok st := h
+          injection h' with h'
+          exact Or.inr ⟨s1, h'.symm, er, rfl⟩
+        · intro e h; cases h
+
+/-! ### Stage 1: the objects loop -/
+
+/-- the hand-written loader from an explicit start state -/
+def loadScadFrom (L : Lang) (nodes : List AssocDecl) (defsOk : Int → Bool) (s0 : MS.St) (d : ScadDoc) :
+    Except MS.Err MS.St := do
+  let s1 ← d.objects.foldlM (loadScadObject L defsOk) s0
+  d.associations.foldlM (loadScadAssoc L nodes) s1
+
+theorem loadScadFrom_empty (L : Lang) (nodes : List AssocDecl) (defsOk : Int → Bool) (d : ScadDoc) :
+    loadScadFrom L nodes defsOk {} d = loadScad L nodes defsOk d := rfl
+
+/-- one evidence attribute: the name is decapitalised (`IndexError` on the empty name), then assigned -/
+theorem scadDefBody_eq (fac : Factory) (asset : ARef) (ev : ScadEv) (s : H) :
+    scadDefBody fac asset ev s =
+      (pyDecap ev.1).bind (fun n => (pjsSetDefense fac s asset (PyJ.str n) ev.2).bind
+        (fun s' => Except.ok (ForInStep.yield s'))) := by
+  unfold scadDefBody scadSub
+  cases h1 : pyDecap ev.1 with
+  | error e => rfl
+  | ok n =>
+    cases h2 : pjsSetDefense fac s asset (PyJ.str n) ev.2 with
+    | error e =>
+      simp only [bind, Except.bind, List.forIn_cons, List.forIn_nil, if_true, h2]
+    | ok s' =>
+      simp only [bind, Except.bind, List.forIn_cons, List.forIn_nil, if_true, h2, pure, Except.pure]
+
+theorem scad_dictSet_fresh (acc : List (String × String)) (k v : String) (h : k ∉ acc.map (·.1)) :
+    PyM.dictSet acc k v = acc ++ [(k, v)] := by
+  unfold PyM.dictSet
+  have : acc.any (fun e => e.1 == k) = false := by
+    rw [Bool.eq_false_iff]
+    intro hc
+    rw [List.any_eq_true] at hc
+    obtain ⟨e, he, hek⟩ := hc
+    exact h (List.mem_map.2 ⟨e, he, by simpa using hek⟩)
+  rw [this]; rfl
+
+theorem scad_newAssetObj_setA (s : H) (o o' : PyAsset) : (newAssetObj s o).setA s.afresh o' = newAssetObj s o' := by
+  unfold newAssetObj H.setA
+  congr 1
+  funext x
+  by_cases hx : x = s.afresh
+  · simp only [hx, if_true]
+  · simp only [hx, if_false]
+
+theorem scad_newAssetObj_a (s : H) (o : PyAsset) : (newAssetObj s o).a s.afresh = o := by
+  unfold newAssetObj; simp only [if_true]
+
+/-- the pjs guard of one defense assignment -/
+def scadGuard (fac : Factory) (ty : String) (d : String × String) : Bool :=
+  (MS.defensesOf fac.L ty).any (·.1 = d.1) && fac.floatOk d.2
+
+/-- the evidence attributes as the hand model reads them -/
+def scadDefs (ds : List (String × String)) : List (String × String) := ds.map (fun d => (decap d.1, d.2))
+
+theorem decap_empty : decap "" = "" := by decide
+
+/-- one round of the evidence loop on the new object -/
+theorem scadDefBody_new (fac : Factory) (s : H) (o : PyAsset) (d : String × String)
+    (hfr : decap d.1 ∉ o.defenses.map (·.1))
+    (hemp : d.1 = "" → (MS.defensesOf fac.L o.type).any (·.1 = "") = false) :
+    (scadGuard fac o.type (decap d.1, d.2) = true →
+      scadDefBody fac s.afresh d (newAssetObj s o) =
+        .ok (.yield (newAssetObj s { o with defenses := o.defenses ++ [(decap d.1, d.2)] }))) ∧
+    (scadGuard fac o.type (decap d.1, d.2) = false →
+      ∃ e, scadDefBody fac s.afresh d (newAssetObj s o) = .error e) := by
+  rw [scadDefBody_eq]
+  unfold pyDecap
+  by_cases he : d.1 = ""
+  · have hg : scadGuard fac o.type (decap d.1, d.2) = false := by
+      unfold scadGuard
+      rw [he, decap_empty, hemp he]; rfl
+    rw [hg]
+    refine ⟨fun h => by cases h, fun _ => ⟨.py .other, ?_⟩⟩
+    rw [he]
+    rfl
+  · have hne : d.1.isEmpty = false := by
+      cases h : d.1.isEmpty with
+      | false => rfl
+      | true => exact absurd (String.isEmpty_iff.1 h) he
+    simp only [hne, Bool.false_eq_true, if_false]
+    show (_ → (pjsSetDefense fac (newAssetObj s o) s.afresh (PyJ.str (decap d.1)) d.2).bind _ = _) ∧
+      (_ → ∃ e, (pjsSetDefense fac (newAssetObj s o) s.afresh (PyJ.str (decap d.1)) d.2).bind _ = _)
+    unfold pjsSetDefense scadGuard
+    simp only [scad_newAssetObj_a, scad_dictSet_fresh _ _ _ hfr, scad_newAssetObj_setA]
+    cases (MS.defensesOf fac.L o.type).any (·.1 = decap d.1) <;> cases fac.floatOk d.2
+    · exact ⟨fun h => by cases h, fun _ => ⟨_, rfl⟩⟩
+    · exact ⟨fun h => by cases h, fun _ => ⟨_, rfl⟩⟩
+    · exact ⟨fun h => by cases h, fun _ => ⟨_, rfl⟩⟩
+    · exact ⟨fun _ => rfl, fun h => by cases h⟩
+
+/-- the evidence loop on the new object: all assignments pass their guards and the object holds the decapitalised
+defenses, or one of them raises -/
+theorem scad_defenses_loop (fac : Factory) (s : H) :
+    ∀ (ds : List (String × String)) (o : PyAsset), ((o.defenses ++ scadDefs ds).map (·.1)).Nodup →
+      (∀ d ∈ ds, d.1 = "" → (MS.defensesOf fac.L o.type).any (·.1 = "") = false) →
+      ((scadDefs ds).all (scadGuard fac o.type) = true →
+        forIn ds (newAssetObj s o) (scadDefBody fac s.afresh) =
+          .ok (newAssetObj s { o with defenses := o.defenses ++ scadDefs ds })) ∧
+      ((scadDefs ds).all (scadGuard fac o.type) = false →
+        ∃ e, forIn ds (newAssetObj s o) (scadDefBody fac s.afresh) = .error e) := by
+  intro ds
+  induction ds with
+  | nil =>
+    intro o _ _
+    refine ⟨?_, ?_⟩
+    · intro _
+      show _ = Except.ok (newAssetObj s { o with defenses := o.defenses ++ [] })
+      rw [List.append_nil]; rfl
+    · intro h; cases h
+  | cons d ds ih =>
+    intro o hnd hemp
+    have hcons : scadDefs (d :: ds) = (decap d.1, d.2) :: scadDefs ds := rfl
+    have hfr : decap d.1 ∉ o.defenses.map (·.1) := by
+      intro hm
+      rw [hcons, List.map_append, List.map_cons, List.nodup_append] at hnd
+      exact hnd.2.2 _ hm _ List.mem_cons_self rfl
+    have hstep := scadDefBody_new fac s o d hfr (hemp d List.mem_cons_self)
+    rw [hcons, List.all_cons]
+    by_cases hg : scadGuard fac o.type (decap d.1, d.2) = true
+    · rw [forIn_cons_ok _ _ _ _ _ (hstep.1 hg), hg, Bool.true_and]
+      have hnd' : (((({ o with defenses := o.defenses ++ [(decap d.1, d.2)] } : PyAsset).defenses) ++
+          scadDefs ds).map (·.1)).Nodup := by
+        show (((o.defenses ++ [(decap d.1, d.2)]) ++ scadDefs ds).map (·.1)).Nodup
+        rw [List.append_assoc]; exact hnd
+      have := ih { o with defenses := o.defenses ++ [(decap d.1, d.2)] } hnd'
+        (fun x hx => hemp x (List.mem_cons_of_mem _ hx))
+      have hap : (o.defenses ++ [(decap d.1, d.2)]) ++ scadDefs ds = o.defenses ++ (decap d.1, d.2) :: scadDefs ds := by
+        rw [List.append_assoc]; rfl
+      simp only [hap] at this
+      exact this
+    · have hg' : scadGuard fac o.type (decap d.1, d.2) = false := by
+        cases h : scadGuard fac o.type (decap d.1, d.2) with
+        | false => rfl
+        | true => exact absurd h hg
+      obtain ⟨e, herr⟩ := hstep.2 hg'
+      rw [forIn_cons_err _ _ _ _ _ herr]
+      refine ⟨?_, fun _ => ⟨_, rfl⟩⟩
+      intro h
+      rw [Bool.and_eq_true] at h
+      exact absurd h.1 hg
+
+theorem scad_all_guard (fac : Factory) (ty : String) (defs : List (String × String)) :
+    defs.all (scadGuard fac ty) =
+      (defs.all (fun p => fac.floatOk p.2) && defs.all (fun d => (MS.defensesOf fac.L ty).any (·.1 = d.1))) := by
+  induction defs with
+  | nil => rfl
+  | cons d ds ih =>
+    rw [List.all_cons, List.all_cons, List.all_cons, ih]
+    unfold scadGuard
+    cases (MS.defensesOf fac.L ty).any (·.1 = d.1) <;> cases fac.floatOk d.2 <;>
+      cases ds.all (fun p => fac.floatOk p.2) <;> rfl
+
+theorem scad_setAdd_length_le {α : Type} [DecidableEq α] (l : List α) (x : α) :
+    (MS.setAdd l x).length ≤ l.length + 1 := by
+  unfold MS.setAdd
+  split
+  · omega
+  · rw [List.length_append]; exact Nat.le_refl _
+
+/-- every attacker of the model has an `id` (true after `add_attacker`) -/
+def AttIds (s : H) : Prop := ∀ t ∈ s.attackers, (s.t t).id.isSome
+
+/-- invariant of the objects loop with `n` objects to go -/
+def PO (env : ModelEnv) (n : Nat) (s : H) : Prop :=
+  MS.Inv (abs s) ∧ s.asset_names.length + n ≤ env.whileFuel ∧ EpOKAll s ∧ AttIds s
+
+/-- what is assumed of one object of the document.  `noEmpty`: an evidence attribute with the empty name makes Python
+raise (`name[0]`), the hand model reads it as the defense `""`; the two agree unless the class has a defense `""`. -/
+structure ObjWf (fac : Factory) (defsOk : Int → Bool) (o : ScadObject) : Prop where
+  nodup : (o.defenses.map (fun d => decap d.1)).Nodup
+  defsOk : defsOk o.id = o.defenses.all (fun d => fac.floatOk d.2)
+  noEmpty : ∀ d ∈ o.defenses, d.1 = "" → (MS.defensesOf fac.L o.metaConcept).any (·.1 = "") = false
+
+theorem scad_newAttObj_setT (s : H) :
+    (newAttObj s {}).setT s.tfresh { (newAttObj s {}).t s.tfresh with entry_points := [] } = newAttObj s {} := by
+  unfold newAttObj H.setT
+  congr 1
+  funext x
+  by_cases hx : x = s.tfresh
+  · simp only [hx, if_true]
+  · simp only [hx, if_false]
+
+theorem scad_attacker_branch (env : ModelEnv) (fac : Factory) (o : ScadObject) (s : H)
+    (h : (o.metaConcept == "Attacker") = true) :
+    scadObjectBody env fac o (none, s) =
+      .ok (.yield (none, model_add_attacker (newAttObj s {}) env s.tfresh (some o.id))) := by
+  unfold scadObjectBody
+  rw [if_pos h]
+  show (newAttachment s PyJ.null).bind _ = _
+  unfold newAttachment
+  simp only [allocT_eq]
+  show Except.ok (ForInStep.yield (none, model_add_attacker ((newAttObj s {}).setT s.tfresh _) env s.tfresh _)) = _
+  rw [scad_newAttObj_setT]
+
+theorem scad_attacker_inv (env : ModelEnv) (s : H) (id : Int) (n : Nat) (hP : PO env n s) :
+    PO env n (model_add_attacker (newAttObj s {}) env s.tfresh (some id)) ∧
+      abs (model_add_attacker (newAttObj s {}) env s.tfresh (some id)) = MS.addAttacker (abs s) none (some id) := by
+  obtain ⟨hI, hfuel, hO, hid⟩ := hP
+  have htie := add_attacker_tie s env {} rfl (some id)
+  have hshape := add_attacker_shape (newAttObj s {}) env s.tfresh (some id)
+  refine ⟨⟨?_, ?_, ?_, ?_⟩, htie⟩
+  · rw [htie]; exact MS.addAttacker_inv' _ _ _ hI
+  · rw [add_attacker_run]; exact hfuel
+  · refine epOKAll_of_sub (s := s) hshape.2.1 ?_ hO
+    intro t
+    rw [hshape.2.2.2 t]
+    show ((if t = s.tfresh then ({} : PyAtt) else s.t t)).entry_points.Sublist _
+    by_cases ht : t = s.tfresh
+    · rw [if_pos ht]; exact List.nil_sublist _
+    · rw [if_neg ht]; exact List.Sublist.refl _
+  · intro t ht
+    rw [hshape.2.2.1] at ht
+    by_cases htf : t = s.tfresh
+    · subst htf; rw [add_attacker_id]; rfl
+    · have hmem : t ∈ s.attackers := by
+        rcases List.mem_append.1 ht with h | h
+        · exact h
+        · exact absurd (List.mem_singleton.1 h) htf
+      have : (model_add_attacker (newAttObj s {}) env s.tfresh (some id)).t t = s.t t := by
+        rw [add_attacker_run]
+        unfold addAttackerH newAttObj
+        simp only [if_neg htf]
+      rw [this]; exact hid t hmem
+
+theorem scad_asset_branch (env : ModelEnv) (fac : Factory) (o : ScadObject) (s : H)
+    (h : ¬ (o.metaConcept == "Attacker") = true) :
+    scadObjectBody env fac o (none, s) =
+      if (!nsHasAsset fac o.metaConcept) = true then .ok (.done (some none, s))
+      else (nsNewAsset fac s (PyJ.str o.metaConcept) (PyJ.str o.name)).bind (fun r_2 =>
+        (forIn o.defenses r_2.fst (scadDefBody fac r_2.snd)).bind (fun s' =>
+          (liftPy (model_add_asset s' env r_2.snd (some o.id) true)).bind (fun s'' =>
+            .ok (.yield (none, s''))))) := by
+  unfold scadObjectBody
+  rw [if_neg h]
+  rfl
+
+/-- the body of the objects loop on one object, against `Legacy.loadScadObject` -/
+theorem scad_object_sim (env : ModelEnv) (fac : Factory) (defsOk : Int → Bool) :
+    StepSimR (PO env) (ObjWf fac defsOk) (scadObjectBody env fac) (loadScadObject fac.L defsOk) := by
+  have key : ∀ n s o, PO env (n + 1) s → ObjWf fac defsOk o →
+      (∀ r, scadObjectBody env fac o (none, s) = .ok r →
+        (∃ s1, r = .yield (none, s1) ∧ loadScadObject fac.L defsOk (abs s) o = .ok (abs s1) ∧ PO env n s1) ∨
+        (∃ s1, r = .done (some none, s1) ∧ ∃ er, loadScadObject fac.L defsOk (abs s) o = .error er)) ∧
+      (∀ e, scadObjectBody env fac o (none, s) = .error e →
+        ∃ er, loadScadObject fac.L defsOk (abs s) o = .error er) := by
+    intro n s o hP hQ
+    by_cases hatt : (o.metaConcept == "Attacker") = true
+    · -- an attacker object
+      have hmc : o.metaConcept = "Attacker" := by simpa using hatt
+      have hP' : PO env n s := ⟨hP.1, by have := hP.2.1; omega, hP.2.2.1, hP.2.2.2⟩
+      obtain ⟨hinv, habs⟩ := scad_attacker_inv env s o.id n hP'
+      rw [scad_attacker_branch env fac o s hatt]
+      refine ⟨fun r h => Or.inl ⟨_, ?_, ?_, hinv⟩, fun e h => by cases h⟩
+      · injection h with h; exact h.symm
+      · unfold loadScadObject
+        rw [if_pos hmc, habs]
+    · have hmc : ¬ o.metaConcept = "Attacker" := by simpa using hatt
+      obtain ⟨hI, hfuel, hep, hid⟩ := hP
+      have hfresh : s.afresh ∉ s.assets := hI.assets.fresh_not_mem
+      have hfuel1 : s.asset_names.length + 1 ≤ env.whileFuel := by omega
+      rw [scad_asset_branch env fac o s hatt]
+      have hhand0 : loadScadObject fac.L defsOk (abs s) o =
+          MS.addAsset fac.L (abs s) o.metaConcept (some o.name) (scadDefs o.defenses) (defsOk o.id) "{}"
+            (some o.id) true := by
+        unfold loadScadObject
+        rw [if_neg hmc]; rfl
+      rw [hhand0]
+      by_cases hcls : (fac.L.findAsset o.metaConcept).isNone = true
+      · -- no such class: `return None`
+        have hns : (!nsHasAsset fac o.metaConcept) = true := by
+          unfold nsHasAsset
+          cases h : fac.L.findAsset o.metaConcept with
+          | none => rfl
+          | some _ => rw [h] at hcls; cases hcls
+        rw [if_pos hns]
+        refine ⟨fun r h => Or.inr ⟨s, ?_, .lookupError, ?_⟩, fun e h => by cases h⟩
+        · injection h with h; exact h.symm
+        · rw [addAsset_eq_core, if_pos hcls]
+      · have hsome : (fac.L.findAsset o.metaConcept).isSome = true := by
+          cases h : fac.L.findAsset o.metaConcept with
+          | none => rw [h] at hcls; exact absurd rfl hcls
+          | some _ => rfl
+        have hns : ¬ (!nsHasAsset fac o.metaConcept) = true := by
+          unfold nsHasAsset; rw [hsome]; decide
+        rw [if_neg hns]
+        have hnew : nsNewAsset fac s (PyJ.str o.metaConcept) (PyJ.str o.name) =
+            .ok (newAssetObj s { type := o.metaConcept, name := some o.name }, s.afresh) := by
+          unfold nsNewAsset nsHasAsset
+          simp only [hsome, allocA_eq]; rfl
+        rw [hnew]
+        obtain ⟨lok, lerr⟩ := scad_defenses_loop fac s o.defenses { type := o.metaConcept, name := some o.name }
+          (by
+            show (([] ++ scadDefs o.defenses).map (fun p : String × String => p.1)).Nodup
+            rw [List.nil_append]
+            unfold scadDefs
+            rw [List.map_map]
+            exact hQ.nodup)
+          hQ.noEmpty
+        have hgd : (!defsOk o.id || !((scadDefs o.defenses).all
+              (fun d => (MS.defensesOf fac.L o.metaConcept).any (·.1 = d.1)))) =
+            !((scadDefs o.defenses).all (scadGuard fac o.metaConcept)) := by
+          have hfl : (scadDefs o.defenses).all (fun p => fac.floatOk p.2) =
+              o.defenses.all (fun d => fac.floatOk d.2) := by
+            unfold scadDefs; rw [List.all_map]; rfl
+          rw [scad_all_guard, hQ.defsOk, Bool.not_and, hfl]
+        by_cases hg : (scadDefs o.defenses).all (scadGuard fac o.metaConcept) = true
+        · have hloop := lok hg
+          have hgd' : ¬ (!defsOk o.id || !((scadDefs o.defenses).all
+              (fun d => (MS.defensesOf fac.L o.metaConcept).any (·.1 = d.1)))) = true := by
+            rw [hgd, hg]; decide
+          simp only [Except.bind]
+          rw [hloop]
+          have tie := add_asset_tie s env hfresh hfuel1
+            { type := o.metaConcept, name := some o.name, defenses := [] ++ scadDefs o.defenses } (some o.id) true
+          have hhand : MS.addAsset fac.L (abs s) o.metaConcept (some o.name) (scadDefs o.defenses) (defsOk o.id) "{}"
+              (some o.id) true =
+              addAssetCore (abs s) o.metaConcept (some o.name) (scadDefs o.defenses) "{}" (some o.id) true := by
+            rw [addAsset_eq_core, if_neg hcls, if_neg hgd']
+          dsimp only
+          cases hm : model_add_asset (newAssetObj s
+              { type := o.metaConcept, name := some o.name, defenses := [] ++ scadDefs o.defenses }) env
+              s.afresh (some o.id) true with
+          | error e0 =>
+            rw [hm] at tie
+            dsimp only [liftPy]
+            refine ⟨fun r h => (by cases h), fun e _ => ⟨errAbs e0, ?_⟩⟩
+            rw [hhand]; exact tie.symm
+          | ok s1 =>
+            rw [hm] at tie
+            dsimp only [liftPy]
+            have hst : MS.addAsset fac.L (abs s) o.metaConcept (some o.name) (scadDefs o.defenses) (defsOk o.id) "{}"
+                (some o.id) true = .ok (abs s1) := by
+              rw [hhand]; exact tie.symm
+            refine ⟨fun r h => Or.inl ⟨s1, ?_, hst, ?_⟩, fun e h => by cases h⟩
+            · injection h with h; exact h.symm
+            · have fr := add_asset_tframe _ s1 env s.afresh (some o.id) true
+                (show s.afresh ∉ (newAssetObj s
+                  { type := o.metaConcept, name := some o.name, defenses := [] ++ scadDefs o.defenses }).assets
+                  from hfresh) hfuel1 hm
+              refine ⟨MS.addAsset_inv' hI hst, ?_, ?_, ?_⟩
+              · obtain ⟨hs1, _⟩ := MS.addAsset_ok hst
+                have hnames : s1.asset_names = MS.setAdd s.asset_names
+                    (MS.newAsset (abs s) o.metaConcept (some o.name) (scadDefs o.defenses) "{}" (some o.id)).name := by
+                  show (abs s1).assetNames = _
+                  rw [hs1]; rfl
+                have := scad_setAdd_length_le s.asset_names
+                  (MS.newAsset (abs s) o.metaConcept (some o.name) (scadDefs o.defenses) "{}" (some o.id)).name
+                rw [hnames]; omega
+              · exact tframe_epOKAll fr (epOKAll_newAssetObj s _ hep)
+              · intro t ht
+                rw [fr.attackers] at ht
+                rw [fr.t]
+                exact hid t ht
+        · have hg' : (scadDefs o.defenses).all (scadGuard fac o.metaConcept) = false := by
+            cases h : (scadDefs o.defenses).all (scadGuard fac o.metaConcept) with
+            | false => rfl
+            | true => exact absurd h hg
+          obtain ⟨e0, hloop⟩ := lerr hg'
+          simp only [Except.bind]
+          rw [hloop]
+          refine ⟨fun r h => (by cases h), fun e _ => ⟨.validation, ?_⟩⟩
+          rw [addAsset_eq_core, if_neg hcls, hgd, hg']; rfl
+  exact ⟨fun n s a r hP hQ h => (key n s a hP hQ).1 r h, fun n s a e hP hQ h => (key n s a hP hQ).2 e h⟩
+
 end MalVerif.PyLeg.Tie
